@@ -1,0 +1,62 @@
+//go:build verif
+
+package input
+
+import (
+	"encoding/hex"
+	"fmt"
+	"io"
+	"strings"
+
+	"github.com/moorara/algo/list"
+)
+
+// VerifDump renders the internal state of an Input in a canonical form:
+//
+//	buf=<hex> lb=<lexemeBegin> fw=<forward> ahead=<0|1> err=<nil|eof|other> off=<offset> line=<line> col=<column> ncol=<nextColumn> rs=[…] lc=[…]
+//
+// The two stacks are listed bottom first. They are read by popping every value and pushing it back.
+func VerifDump(i *Input) string {
+	if i == nil {
+		return "nil"
+	}
+
+	errKind := "nil"
+	if i.err == io.EOF {
+		errKind = "eof"
+	} else if i.err != nil {
+		errKind = "other"
+	}
+
+	ahead := 0
+	if i.ahead {
+		ahead = 1
+	}
+
+	return fmt.Sprintf("buf=x%s lb=%d fw=%d ahead=%d err=%s off=%d line=%d col=%d ncol=%d rs=%s lc=%s",
+		hex.EncodeToString(i.buff), i.lexemeBegin, i.forward, ahead, errKind,
+		i.offset, i.line, i.column, i.nextColumn,
+		verifStack(i.runeSizes), verifStack(i.lastColumns),
+	)
+}
+
+// VerifLexemeReturns reports whether the copying loop of Lexeme can reach forward from lexemeBegin,
+// that is, whether both pointers are within the buffer. If not, Lexeme never returns.
+func VerifLexemeReturns(i *Input) bool {
+	return 0 <= i.forward && i.forward < len(i.buff) && 0 <= i.lexemeBegin && i.lexemeBegin < len(i.buff)
+}
+
+func verifStack(s list.Stack[int]) string {
+	var vals []int
+	for v, ok := s.Pop(); ok; v, ok = s.Pop() {
+		vals = append(vals, v)
+	}
+
+	strs := make([]string, len(vals))
+	for k := len(vals) - 1; k >= 0; k-- {
+		s.Push(vals[k])
+		strs[len(vals)-1-k] = fmt.Sprint(vals[k])
+	}
+
+	return "[" + strings.Join(strs, " ") + "]"
+}
